@@ -158,6 +158,41 @@ Theorem C13_code_constructor_wiring : forall (K : Ops) (D N ord M : Z) (a nl pl 
 Proof. intros. splits; reflexivity. Qed.
 Print Assumptions C13_code_constructor_wiring.
 
+(* `_build_nonlinear_fun` of every stepper class is re-translated from the source on every run (harness/translate/buildnl.py ->
+   Gen/BuildNL.v, closed over exponax/stepper; the arguments are the constructor arguments of the stepper, stored unchanged).  A specific
+   stepper and its generic counterpart build the SAME nonlinear function from the corresponding arguments: Burgers / KdV / conservative KS
+   = general convection, KS = general gradient norm (mean mode removed in both), Navier-Stokes / Kolmogorov vorticity = the two branches
+   of the general vorticity stepper, Fisher-KPP / Allen-Cahn / Swift-Hohenberg = the general polynomial stepper with the documented
+   coefficient lists; linear steppers build the zero function. *)
+From EXV Require Import Steppers.NLConfig Gen.BuildNL.
+Theorem C13_code_nonlinear_wiring : forall (K : Ops) (b frac r c3 nu f kr : K) (sc cons : bool) (m : Z) (pl : list K),
+  (gen_nl_Burgers K cons b frac sc = gen_nl_GeneralConvectionStepper K cons b frac sc
+   /\ gen_nl_KortewegDeVries K cons b frac sc = gen_nl_GeneralConvectionStepper K cons b frac sc
+   /\ gen_nl_KuramotoSivashinskyConservative K cons b frac sc = gen_nl_GeneralConvectionStepper K cons b frac sc
+   /\ gen_nl_GeneralConvectionStepper K cons b frac sc = NL_ConvectionNonlinearFun cons frac b sc)
+  /\ (gen_nl_KuramotoSivashinsky K frac b = gen_nl_GeneralGradientNormStepper K frac b
+      /\ gen_nl_GeneralGradientNormStepper K frac b = NL_GradientNormNonlinearFun frac b true)
+  /\ (gen_nl_NavierStokesVorticity K frac b = gen_nl_GeneralVorticityConvectionStepper K frac m r true b
+      /\ gen_nl_KolmogorovFlowVorticity K b frac m r = gen_nl_GeneralVorticityConvectionStepper K frac m r false b
+      /\ gen_nl_NavierStokesVorticity K frac b = NL_VorticityConvection2d b frac
+      /\ gen_nl_KolmogorovFlowVorticity K b frac m r = NL_VorticityConvection2dKolmogorov b frac m r)
+  /\ (gen_nl_NavierStokesVelocity K frac = NL_ProjectedConvection3d frac
+      /\ gen_nl_KolmogorovFlowVelocity K frac m r = NL_ProjectedConvection3dKolmogorov frac m r)
+  /\ (gen_nl_FisherKPP K frac r = gen_nl_GeneralPolynomialStepper K frac [fz 0; fz 0; oopp r]
+      /\ gen_nl_AllenCahn K frac c3 = gen_nl_GeneralPolynomialStepper K frac [fz 0; fz 0; fz 0; c3]
+      /\ gen_nl_SwiftHohenberg K frac pl = gen_nl_GeneralPolynomialStepper K frac pl
+      /\ gen_nl_GeneralPolynomialStepper K frac pl = NL_PolynomialNonlinearFun pl frac
+      /\ gen_nl_GeneralNonlinearStepper K frac pl = NL_GeneralNonlinearFun frac pl true)
+  /\ (gen_nl_CahnHilliard K frac nu c3 = NL_CahnHilliardNonlinearFun frac (omul nu c3)
+      /\ gen_nl_GrayScott K frac f kr = NL_GrayScottNonlinearFun frac f kr
+      /\ gen_nl_BelousovZhabotinsky K frac = NL_BelousovZhabotinskyNonlinearFun frac)
+  /\ (gen_nl_Advection K = NL_ZeroNonlinearFun K /\ gen_nl_Diffusion K = NL_ZeroNonlinearFun K
+      /\ gen_nl_AdvectionDiffusion K = NL_ZeroNonlinearFun K /\ gen_nl_Dispersion K = NL_ZeroNonlinearFun K
+      /\ gen_nl_HyperDiffusion K = NL_ZeroNonlinearFun K /\ gen_nl_Wave K = NL_ZeroNonlinearFun K
+      /\ gen_nl_GeneralLinearStepper K = NL_ZeroNonlinearFun K).
+Proof. intros. splits; reflexivity. Qed.
+Print Assumptions C13_code_nonlinear_wiring.
+
 (* non-vacuity over the rationals *)
 From Coq Require Import Qcanon.
 Example C13_ex : map this (normalize_coefficients QcField (Q2Qc 2) (Q2Qc (1 # 4)) [Q2Qc 3; Q2Qc 5; Q2Qc 8])
